@@ -138,17 +138,17 @@ func NewRNG(s uint64) *rand.Rand { return rand.New(rand.NewPCG(s, SplitMix64(s))
 // ---------------------------------------------------------------------------
 
 type Options struct {
-	Property string
-	Tier     string
-	Seed     uint64
-	Worker   int
-	Workers  int
-	Budget   time.Duration
-	MaxRuns  uint64
-	OutFile  string
-	ReplayDir string
+	Property     string
+	Tier         string
+	Seed         uint64
+	Worker       int
+	Workers      int
+	Budget       time.Duration
+	MaxRuns      uint64
+	OutFile      string
+	ReplayDir    string
 	ShrinkBudget time.Duration
-	Canary   int // run the first N runs twice and compare digests
+	Canary       int // run the first N runs twice and compare digests
 	// CrashFile: the plan about to be executed is written here first, so that a fatal runtime
 	// error (stack overflow, concurrent map write, deadlock) that kills the worker leaves its input behind.
 	CrashFile string
@@ -167,20 +167,20 @@ type ReplayFile struct {
 }
 
 type WorkerResult struct {
-	Property    string           `json:"property"`
-	Worker      int              `json:"worker"`
-	Runs        uint64           `json:"runs"`
-	Steps       int64            `json:"steps"`
-	SimSeconds  float64          `json:"sim_seconds"`
-	Counters    map[string]int64 `json:"counters"`
-	Sigs        []string         `json:"nontrivial_sigs"`
+	Property    string            `json:"property"`
+	Worker      int               `json:"worker"`
+	Runs        uint64            `json:"runs"`
+	Steps       int64             `json:"steps"`
+	SimSeconds  float64           `json:"sim_seconds"`
+	Counters    map[string]int64  `json:"counters"`
+	Sigs        []string          `json:"nontrivial_sigs"`
 	Samples     []json.RawMessage `json:"samples"`
-	Violation   *Violation       `json:"violation,omitempty"`
-	Replay      string           `json:"replay,omitempty"`
-	WallSeconds float64          `json:"wall_s"`
-	CanaryRuns  int              `json:"canary_runs"`
-	CanaryBad   []string         `json:"canary_mismatch,omitempty"`
-	HarnessErr  string           `json:"harness_error,omitempty"`
+	Violation   *Violation        `json:"violation,omitempty"`
+	Replay      string            `json:"replay,omitempty"`
+	WallSeconds float64           `json:"wall_s"`
+	CanaryRuns  int               `json:"canary_runs"`
+	CanaryBad   []string          `json:"canary_mismatch,omitempty"`
+	HarnessErr  string            `json:"harness_error,omitempty"`
 }
 
 // SafeExecute runs w.Execute converting a panic that escapes the world into a
